@@ -115,6 +115,30 @@ def build(kind, br):
         n = dim("n")
         a = SymTensor.fresh("A", (n, n), F)
         return LO.BatchRepeatLinearOperator(LO.DenseLinearOperator(a), batch_repeat=sym_size(bs) if br else sym_size((1,)))
+    if kind == "TriangularUpper":
+        n = dim("n")
+        return LO.TriangularLinearOperator(ten("T", n, n), upper=True)
+    if kind in ("CholLower", "CholUpper"):
+        n = dim("n")
+        up = kind == "CholUpper"
+        return LO.CholLinearOperator(LO.TriangularLinearOperator(ten("T", n, n), upper=up), upper=up)
+    if kind == "Identity":
+        return LO.IdentityLinearOperator(dim("n"), batch_shape=sym_size(bs), dtype=F)
+    if kind == "Zero":
+        return LO.ZeroLinearOperator(*bs, dim("m"), dim("n"), dtype=F)
+    if kind in ("CatRows", "CatCols"):
+        m, n, k = dim("m"), dim("n"), dim("k")
+        if kind == "CatRows":
+            return LO.CatLinearOperator(LO.DenseLinearOperator(ten("C1", m, n)), LO.DenseLinearOperator(ten("C2", k, n)), dim=-2)
+        return LO.CatLinearOperator(LO.DenseLinearOperator(ten("C1", m, n)), LO.DenseLinearOperator(ten("C2", m, k)), dim=-1)
+    if kind == "KroneckerTriangular":
+        n1, n2 = dim("n1"), dim("n2")
+        return LO.KroneckerProductTriangularLinearOperator(LO.TriangularLinearOperator(ten("K1", n1, n1)), LO.TriangularLinearOperator(ten("K2", n2, n2)))
+    if kind == "LowRankRoot":
+        return LO.LowRankRootLinearOperator(ten("R", dim("n"), dim("k")))
+    if kind == "PsdSum":
+        n = dim("n")
+        return LO.PsdSumLinearOperator(LO.DenseLinearOperator(ten("S1", n, n)), LO.DenseLinearOperator(ten("S2", n, n)))
     if kind.startswith("Interp"):
         w = int(kind[-1])
         m, m2 = dim("mb"), dim("mb2")
